@@ -53,6 +53,7 @@ removed without `using`, or a participant deleted) are states of the sequence
 search, over the reflexive association class R4 and over R3; the probes read
 every variable that does not designate a deleted instance.
 '''
+import itertools
 import json
 
 from mc import core, explorer
@@ -707,7 +708,16 @@ ANYREL_CHAINS = [
     ('a1', [('A', 'R4', T('one'))]), ('a1', [('L', 'R4', T('one'))]), ('a1', [('L', 'R4', T('one')), ('A', 'R4', T('one'))]),
     ('a2', [('A', 'R4', T('other'))]), ('as_', [('A', 'R4', T('other'))]), ('l2', [('A', 'R4', T('one'))]),
     ('a1', [('A', 'R2', T('prev'))]), ('as_', [('A', 'R2', T('prev'))]), ('a1', [('A', 'R2', T('prev')), ('A', 'R2', T('prev'))]),
+    # round 7 (C04-13): chains that come back to a class -- and to instances -- they have already passed
+    ('b2', [('A', 'R1', None), ('B', 'R1', None), ('A', 'R1', None)]),
+    ('a1', [('B', 'R1', None), ('A', 'R1', None), ('B', 'R1', None)]),
+    ('a2', [('A', 'R2', T('prev')), ('A', 'R2', T('next')), ('A', 'R2', T('prev'))]),
+    ('a2', [('A', 'R2', T('next')), ('A', 'R2', T('prev')), ('A', 'R2', T('next'))]),
+    ('as_', [('A', 'R2', T('prev')), ('A', 'R2', T('next'))]),
+    ('a1', [('L', 'R4', T('one')), ('A', 'R4', T('one')), ('L', 'R4', T('other')), ('A', 'R4', T('other'))]),
+    ('a1', [('C', 'R3', None), ('B', 'R3', None), ('C', 'R3', None), ('A', 'R3', None)]),
 ]
+RETURNING_CHAINS = range(15, 22)
 _SEL = ('selected',)
 ANYREL_WHERES = [
     B('==', ('field', _SEL, 'K'), I(1)), B('==', ('field', _SEL, 'K'), I(2)), B('==', ('field', _SEL, 'K'), I(3)),
@@ -725,7 +735,7 @@ def anyrel_cases(tier):
         for ci, (start, chain) in enumerate(ANYREL_CHAINS):
             wheres = anyrel_wheres(chain, tier)
             for wi in range(len(wheres)):
-                for card, variant in (('any', 'instance'), ('any', 'oal'), ('one', 'instance')) + ((('one', 'oal'),) if tier == 'thorough' else ()):
+                for card, variant in (('any', 'instance'), ('any', 'oal'), ('one', 'instance'), ('many', 'count')) + ((('one', 'oal'),) if tier == 'thorough' else ()):
                     out.append(dict(family='anyrel', order=order, chain=ci, where=wi, card=card, variant=variant))
     return out
 
@@ -756,7 +766,11 @@ def check_anyrel(ctx, case):
     if card == 'one' and len(reach) > 1:
         return 'ood'
     sel = ('selrel', card, 'v', V(start), chain, where)
-    if case['variant'] == 'instance':
+    if card == 'many':
+        # the whole selection: as many instances as the reference selects, with and without the clause
+        prog = pop + [sel, ('selrel', 'many', 'u', V(start), chain, None),
+                      ('return', B('+', B('*', U('cardinality', V('u')), I(100)), U('cardinality', V('v'))))]
+    elif case['variant'] == 'instance':
         prog = pop + [sel, ('return', V('v'))]
     else:
         prog = pop + [sel, IF(U('empty', V('v')), [('return', U('-', I(1)))]), IF(U('not_empty', V('v')), [('return', F('v', 'K'))]),
@@ -775,6 +789,17 @@ def check_anyrel(ctx, case):
         ctx.violation(sig + ':crash:%s' % type(e).__name__, case, 'interpreter raised %s: %s on: %s' % (type(e).__name__, e, text),
                       None, type(e).__name__, unit_test=unit_test(text))
         return 'bad'
+    if card == 'many':
+        exp = float(100 * len(reach) + len(S))
+        if got is None or got[0] != 'num' or got[1] != exp:
+            ctx.violation(sig + ':cardinality', case, 'returned %r, expected %r (100 x the %d related instances + the %d satisfying '
+                          'the clause) for: %s' % (got, exp, len(reach), len(S), text), exp, got, unit_test=unit_test(text))
+            return 'bad'
+        ctx.count('traces')
+        ctx.count('anyrel_many')
+        if case['chain'] in RETURNING_CHAINS and reach:
+            ctx.count('anyrel_returning_chains_nonempty')
+        return 'ok'
     if case['variant'] == 'instance':
         chosen = got[1] if got is not None and got[0] == 'inst' else None
         shape_ok = got is None or got[0] == 'inst'
@@ -992,8 +1017,15 @@ def family_case(ctx, case):
         prog = case['prog']
         sig = 'c04:loopctl:%s' % case['control']
     elif fam == 'strlit':
+        # (round 7, C04-14) programs run earlier in the same process that differ from this one in blank space inside the literal only
+        for k, lit in enumerate(case.get('before', ())):
+            status, _ = check_program(ctx, strlit_program(case['context'], lit, case.get('other')), fam,
+                                      sigprefix='c04:strlit:%s' % case['context'], extra_case=dict(case, lit=lit, before=case['before'][:k]))
+            if status == 'bad':
+                return status, None
+            ctx.count('strlit_runs_before_a_near_identical_program')
         prog = strlit_program(case['context'], case['lit'], case.get('other'))
-        sig = 'c04:strlit:%s' % case['context']
+        sig = 'c04:strlit:%s%s' % (case['context'], ':after-near-identical-program' if case.get('before') else '')
     else:
         prog = case['prog']
         sig = 'c04:rebind:%s' % case['container']
@@ -1329,7 +1361,16 @@ def strlit_cases(tier):
             out.append(dict(family='strlit', context=c, lit=lit))
         for other in STR_LITERALS:
             out.append(dict(family='strlit', context='equal', lit=lit, other=other))
+    # literals that differ in the blank space they hold only: every ordered pair (and one triple) as programs of one
+    # context run one after the other in one process
+    for c in ('return', 'attribute', 'where-many', 'if', 'concat'):
+        for a, b in itertools.permutations(NEAR_LITERALS, 2):
+            out.append(dict(family='strlit', context=c, lit=b, before=[a]))
+        out.append(dict(family='strlit', context=c, lit=NEAR_LITERALS[0], before=list(NEAR_LITERALS[1:3])))
     return out
+
+
+NEAR_LITERALS = ['x y', 'x  y', 'x\ty', 'x \t y']
 
 
 DEPTH = {'quick': 2, 'thorough': 3}
@@ -1373,6 +1414,8 @@ def run(ctx):
     ctx.require(ctx.nd('stmt_kinds') >= 30, 'too few statement kinds exercised (%d)' % ctx.nd('stmt_kinds'))
     ctx.require(ctx.n('anyrel_first_related_fails_later_matches') >= 40, 'too few selections where the first related instance '
                 'fails the where clause and a later one satisfies it (%d)' % ctx.n('anyrel_first_related_fails_later_matches'))
+    ctx.require(ctx.n('anyrel_returning_chains_nonempty') >= 20, 'too few whole selections along chains that come back to instances '
+                'they have passed (%d)' % ctx.n('anyrel_returning_chains_nonempty'))
     ctx.require(ctx.n('anyrel_empty') >= 40, 'too few selections along chains where no related instance satisfies the clause (%d)'
                 % ctx.n('anyrel_empty'))
     ctx.require(ctx.n('boolexpr_out_of_domain') == 0 and ctx.n('boolexpr_runs') >= 1500,
@@ -1385,6 +1428,8 @@ def run(ctx):
     ctx.require(ctx.n('loopctl_out_of_domain') == 0 and ctx.n('loopctl_action_ended_inside_a_loop') >= 300,
                 'loopctl family: %d runs end the action inside a loop, %d programs the reference rejects'
                 % (ctx.n('loopctl_action_ended_inside_a_loop'), ctx.n('loopctl_out_of_domain')))
+    ctx.require(ctx.n('strlit_runs_before_a_near_identical_program') >= 60, 'too few programs run right before a program that differs '
+                'in blank space inside a string literal only (%d)' % ctx.n('strlit_runs_before_a_near_identical_program'))
     ctx.require(ctx.n('strlit_out_of_domain') == 0 and ctx.n('strlit_backslash_or_non_ascii') >= 600,
                 'strlit family: %d runs with a backslash or a non-ASCII character in the literal, %d programs the reference rejects'
                 % (ctx.n('strlit_backslash_or_non_ascii'), ctx.n('strlit_out_of_domain')))
